@@ -185,7 +185,7 @@ def run(ctx):
         cases = []
         for sl in slices:
             r = random.Random(8000 + sl)
-            cases += [gen_case(r) for _ in range(ctx.n(260, 1500))]
+            cases += [gen_case(r) for _ in range(ctx.n(260, 600))]
         ctx.extra["corpus_slices"] = list(slices)
         cases[:0] = [{"kind": "RunString", "text": t} for t in c07.FAILING] + [{"kind": "RunString", "text": ""}, {"kind": "RunString", "text": "\n\n#only a comment\n"}] + long_line_cases()
     ref = reference(wexe)
